@@ -26,8 +26,50 @@ class _Intern:
         return self.tab[key]
 
 
-def _make_proxy(inner, idx, log, intern, variant):
+_REC_CLASSES: dict = {}
+
+
+def _observe(entry, msgs, intern, variant):
+    for m in msgs:
+        try:
+            valid = bool(m.is_valid)
+        except Exception:  # noqa: BLE001
+            valid = False
+        try:
+            pl = m.payload
+        except Exception:  # noqa: BLE001
+            pl = None
+        pk = "none" if pl is None else ("empty" if len(pl) == 0 else "data")
+        pid = intern.pid(("m", id(m))) if variant == "message" else intern.pid(("p", bytes(pl or b"")))
+        entry["msgs"].append({"valid": valid, "pk": pk, "pid": pid})
+        entry.setdefault("_keep", []).append(m)   # keep objects alive so that id() stays unique
+
+
+def _rec_class(base):
+    """One recording subclass per library reader class: the protocol sees an object whose type tells HDLC from P1 (isinstance, type(), class
+    attributes all as for the real reader), unlike the anonymous Proxy below, which hides the kind of reader from the protocol."""
+    if base not in _REC_CLASSES:
+        def read(self, data_chunk):
+            idx, log, intern, variant = self._verif_rec
+            entry = {"reader": idx, "raised": "", "msgs": []}
+            log.append(entry)
+            try:
+                msgs = base.read(self, data_chunk)
+            except Exception as ex:  # noqa: BLE001
+                entry["raised"] = type(ex).__name__
+                raise
+            _observe(entry, msgs, intern, variant)
+            return msgs
+        _REC_CLASSES[base] = type("Rec" + base.__name__, (base,), {"read": read})
+    return _REC_CLASSES[base]
+
+
+def _make_proxy(inner, idx, log, intern, variant, typed=False):
     from han.common import MeterReaderBase
+    if typed and type(inner).__module__.startswith("han.") and hasattr(inner, "__dict__"):
+        inner.__class__ = _rec_class(type(inner))
+        inner._verif_rec = (idx, log, intern, variant)
+        return inner
 
     class Proxy(MeterReaderBase):
         """Recording wrapper around a real reader (public interface only)."""
@@ -63,7 +105,7 @@ def _make_proxy(inner, idx, log, intern, variant):
 
 
 def record(variant: str, readers: list, chunks: list[bytes], plan_payloads=None, mode="free", origin="", names=None, container="list",
-           shared=None) -> dict:
+           shared=None, typed=False, plan_count=0) -> dict:
     """container: how the candidates are handed over ("list", "tuple", or "shared": a list object the caller keeps and
     hands to a second protocol instance later, as a connection factory that builds its candidate list once would)."""
     loop = asyncio.new_event_loop()
@@ -72,7 +114,7 @@ def record(variant: str, readers: list, chunks: list[bytes], plan_payloads=None,
         q = asyncio.Queue()
         intern = _Intern()
         log: list = []
-        proxies = [_make_proxy(r, i + 1, log, intern, variant) for i, r in enumerate(readers)]
+        proxies = [_make_proxy(r, i + 1, log, intern, variant, typed) for i, r in enumerate(readers)]
         if shared is not None:
             if shared:                      # second session: same list object, new reader proxies put back by the caller
                 del shared[:]
@@ -101,7 +143,7 @@ def record(variant: str, readers: list, chunks: list[bytes], plan_payloads=None,
             calls.append({"chunk_len": len(ch), "fed": fed, "delta": delta, "raised": raised})
         pp = [intern.pid(("p", p)) for p in (plan_payloads or [])]
         return {"id": stable_id("proto", variant, names, [c.hex() for c in chunks][:50], len(chunks)), "canary": "", "origin": origin,
-                "variant": variant, "mode": mode, "candidates": names or [], "calls": calls, "plan_payloads": pp,
+                "variant": variant, "mode": mode, "candidates": names or [], "calls": calls, "plan_payloads": pp, "plan_count": plan_count,
                 "chunks": [c.hex() for c in chunks] if sum(map(len, chunks)) < 6000 else []}
     finally:
         loop.close()
@@ -134,7 +176,10 @@ def _mk(args):
         variant = "payload" if k % 2 == 0 else "message"
         style = rng.choice(["hdlc_clean", "hdlc_clean", "p1_clean", "p1_clean", "hdlc_dirty", "p1_dirty", "noise", "p1_sandwich", "hdlc_sandwich"])
         names = rng.choice(CAND_LISTS)
-        plan_payloads, mode = None, "free"
+        if k < 8:       # a fixed history at the start of every worker: the other kind of meter was selected by the previous protocol instance of the process
+            style = ["hdlc_clean", "p1_clean"][(k // 2) % 2]
+            names = [["HDLC:0:0", "P1"], ["P1", "HDLC:0:0"]][(k // 4) % 2]
+        plan_payloads, mode, plan_count = None, "free", 0
         hd = [x for x in names if x.startswith("HDLC")]
         if style.startswith("hdlc"):
             cfgname = hd[0] if hd else "HDLC:0:0"
@@ -150,9 +195,10 @@ def _mk(args):
                     plan = H.clean_plan(rng, cfg, rng.randint(1, 6), fresh_noise=False)
                 # keep the stream free of anything a P1 candidate could take for a readout ('/' ... LF ... '!')
                 data = H.plan_wire(cfg, plan)
+                mode = "clean"
+                plan_count = sum(1 for it in plan if it["k"] == "frame")
                 if variant == "payload":
                     plan_payloads = [bytes(it["info"]) for it in plan if it["k"] == "frame" and it["info"]]
-                    mode = "clean"
             elif style == "hdlc_sandwich":      # selection happens on the first frames; then damaged ones reach message_received; then good ones
                 from .drv_readers import almost_frames
                 enc = (lambda x: H.stuff(x)) if cfg[0] else (lambda x: x)
@@ -174,12 +220,13 @@ def _mk(args):
                     it = P.item_readout(rng, nlines=0)
                     plan.insert(rng.randint(1 if plan[0]["k"] == "tail" else 0, len(plan)), it)
                 data = P.plan_wire(plan)
+                mode = "clean"
+                plan_count = sum(1 for it in plan if it["k"] == "readout")
                 if variant == "payload":
                     def pl(it):
                         r = P.item_bytes(it)
                         return r[r.find(b"\n") + 1:r.find(b"!")]
                     plan_payloads = [pl(it) for it in plan if it["k"] == "readout" and pl(it)]
-                    mode = "clean"
             elif style == "p1_sandwich":        # good readouts, then readouts wrong in one boundary-valued octet (invalid, >= 0x80, ...), then good ones
                 from .drv_readers import almost_readouts
                 data = (P.plan_wire(P.clean_plan(rng, 2, False)) + almost_readouts(rng, seed + k) + P.plan_wire(P.clean_plan(rng, 2, False)))
@@ -209,21 +256,26 @@ def _mk(args):
                         mode, plan_payloads = "free", None
                 except Exception:  # noqa: BLE001
                     pass
+        if variant == "message" and mode == "clean":
+            mode = "clean_count"        # the message protocol enqueues objects: on a clean stream at least one per planned message
         how = rng.choice(["list", "list", "tuple", "two_sessions"])
+        if k < 8:
+            how = "list"
+        typed = k % 3 != 0 or k < 8      # candidates that are instances of (a recording subclass of) the library's reader classes, not anonymous proxies
         if how == "two_sessions":
             # the user's candidate list object outlives the first protocol instance (reconnect): the second instance must
             # work from the same object exactly like the first
             shared: list = []
-            record(variant, mk_readers(names), split(data, cuts), plan_payloads, mode, f"gen:{style}:session1", names, shared=shared)
+            record(variant, mk_readers(names), split(data, cuts), plan_payloads, mode, f"gen:{style}:session1", names, shared=shared, typed=typed, plan_count=plan_count)
             if len(shared) != len(names):
                 shared[:] = []          # the first instance emptied the caller's list: the second one gets what is left (nothing)
                 t = record(variant, [], split(data, cuts), plan_payloads, mode, f"gen:{style}:session2-after-shared-list-was-emptied", names, shared=None,
                            container="list")
             else:
-                t = record(variant, mk_readers(names), split(data, cuts), plan_payloads, mode, f"gen:{style}:session2", names, shared=shared)
+                t = record(variant, mk_readers(names), split(data, cuts), plan_payloads, mode, f"gen:{style}:session2", names, shared=shared, typed=typed, plan_count=plan_count)
             out.append(t)
         else:
-            out.append(record(variant, mk_readers(names), split(data, cuts), plan_payloads, mode, f"gen:{style}:{how}", names, container=how))
+            out.append(record(variant, mk_readers(names), split(data, cuts), plan_payloads, mode, f"gen:{style}:{how}{':typed' if typed else ''}", names, container=how, typed=typed, plan_count=plan_count))
     return out
 
 
@@ -474,7 +526,7 @@ def replay_any(chk: Check, rp: dict, prefixes) -> int:
     if not t.get("chunks"):
         raise MachineryError("replay file carries no chunks (stream too long); re-run the check with the recorded seed")
     chunks = [bytes.fromhex(c) for c in t["chunks"]]
-    nt = record(t["variant"], mk_readers(t["candidates"]), chunks, None, "free", "replay", t["candidates"])
+    nt = record(t["variant"], mk_readers(t["candidates"]), chunks, None, "free", "replay", t["candidates"], typed=":typed" in t.get("origin", ""))
     v = chk.judge("proto", "Trace_Proto", [nt], what="replay")
     harvest(chk, [nt], v, prefixes)
     return chk.finish(rule="replay of one protocol trace")
@@ -511,7 +563,7 @@ def _mk14(args):
                 good = b"\x7e" + enc(f) + b"\x7e" + enc(f0) + b"\x7e"
                 data = good + almost_frames(rng, cfg) + data + good
         cuts = rng.choice(chunkings(rng, len(data), 4))
-        out.append(record(variant, mk_readers(names), split(data, cuts), None, "free", "gen:c14", names))
+        out.append(record(variant, mk_readers(names), split(data, cuts), None, "free", "gen:c14", names, typed=k % 2 == 1))
     return out
 
 
